@@ -16,8 +16,8 @@ import ticc_util as tu
 from common import show_list
 
 LEVEL = "other"
-LEAN_PROPS = ["FastTicc.Props.C20", "FastTicc.Props.C09"]
-LEAN_HELPERS = ["FastTicc.Proofs.MainLoop"]
+LEAN_PROPS = ["FastTicc.Props.C20", "FastTicc.Props.Compose", "FastTicc.Props.C09"]
+LEAN_HELPERS = ["FastTicc.Proofs.MainLoop", "FastTicc.Proofs.Compose"]
 RULE = ("fault enumeration: the optimisation task of EVERY (round, cluster) of a 3-cluster run is made to fail in turn, with "
         "the default single-worker pool and with a 4-worker pool (CUPCAKE_ENABLE_MULTIPROCESSING), plus two failing tasks "
         "in one round, a fault in each phase function, the no-donor error and both wrong-front-end calls; after each "
